@@ -447,4 +447,18 @@ def denoteK (e : Env) : Prov → Option (List Int)
 def sslOutput (cells : Nat) (i t : Grid) (inK pred : List Int) : List Int :=
   applyMaskK cells t (List.zipWith (fun a b => a + b) inK (applyMaskK cells (gNot i) pred))
 
+/-! ## shapes of the split masks through batch collation -/
+
+/-- shape of a split mask as `forward` returns it for a per-sample sampling mask of shape `ms`
+(`mask.reshape(sampling_mask[_].shape)`) -/
+def splitMaskShape (ms : List Nat) : List Nat := ms
+/-- before the repair: the squeezed 2-D mask with a leading and a trailing unit axis (`mask[None, ..., None]`) —
+the slice axis of 3-D data is lost -/
+def splitMaskShapePinned (ms : List Nat) : List Nat := 1 :: (ms.filter (· != 1)) ++ [1]
+/-- right-aligned broadcasting of a mask shape against a k-space shape (torch semantics) -/
+def broadcastsTo (m k : List Nat) : Bool :=
+  decide (m.length ≤ k.length) && (List.zip m.reverse k.reverse).all fun ab => ab.1 == 1 || ab.1 == ab.2
+/-- the batch axis of the collated mask meets the batch axis of the collated k-space -/
+def batchAligned (m k : List Nat) : Bool := m.length == k.length
+
 end DirectVerif.SslSplit
